@@ -12,6 +12,7 @@ import PyOak.Handle.Origin
 import PyOak.Handle.SerOpts
 import PyOak.Handle.LegacyC20
 import PyOak.Handle.Visitor
+import PyOak.Handle.Accessors
 open PyOak PyOak.Sexp
 
 def dispatch (s : Sexp) : Sexp :=
@@ -34,6 +35,7 @@ def dispatch (s : Sexp) : Sexp :=
         handleLegacyC20 cmd args
       else if cmd == "transform" then handleTransform args
       else if cmd == "dispatch" then handleDispatch args
+      else if cmd.startsWith "acc-" then handleAccessors cmd args
       else none
     match r with
     | some x => x
